@@ -782,7 +782,18 @@ def main():
                     sub = None
                 exe = next((e for e, subs in pbt_units if sub in subs), None)
                 if exe is None:
-                    notes.append("regress/%s/%s: no unit owns sub-check %s" % (prop, name, sub))
+                    cu = next((u for u in spec["units"] if u["kind"] == "custom"), None)
+                    if cu is None:
+                        notes.append("regress/%s/%s: no unit owns sub-check %s" % (prop, name, sub))
+                        continue
+                    # custom units replay through their own module (exit 0 = passes now)
+                    r = subprocess.run([sys.executable, os.path.join(VERIF, "units", cu["module"] + ".py"), "--replay", path],
+                                       stdout=subprocess.PIPE, stderr=subprocess.STDOUT, text=True)
+                    regress["replayed"] += 1
+                    if r.returncode == 0:
+                        regress["passed"] += 1
+                    else:
+                        violations.append(dict(sub=sub or "?", replay=path, msg="regression record fails again: " + r.stdout[-800:]))
                     continue
                 rc, out = replay_pbt(exe, path, known_ids)
                 ok = (0, 2, 3)
